@@ -38,7 +38,11 @@ func genStreamSc(g *simrt.Tape, tier string) any {
 	n := 1 + g.Draw(6)
 	small := sc.Max > 0 && sc.Max <= 4096
 	for i := 0; i < n; i++ {
-		sc.Frames = append(sc.Frames, hex.EncodeToString(genFrame(g, small || g.Draw(3) > 0)))
+		f := genFrame(g, small || g.Draw(3) > 0)
+		if g.Draw(8) == 0 {
+			f = spoil(f)
+		}
+		sc.Frames = append(sc.Frames, hex.EncodeToString(f))
 	}
 	sc.Chunk = []int{simnet.ChunkRandom, simnet.ChunkRandom, simnet.ChunkByte, simnet.ChunkMax}[g.Draw(4)]
 	sc.DataEOF = g.Draw(3) == 1
@@ -121,8 +125,12 @@ func execStream(x *X, scAny any) {
 				var v ttlv.Value
 				// the decoder may modify its input (two's complement conversion in place): never share the frame
 				if err := ttlv.UnmarshalTTLV(bytes.Clone(f), &v); err != nil {
-					x.Reportf("C07.harness", "frame-not-decodable", "frame %d: %v", i, err)
-					return
+					// a correctly framed item that does not decode cannot go through Send: written as it is
+					if _, werr := a.Write(bytes.Clone(f)); werr != nil {
+						x.Reportf("C07.send-error", "raw-write", "raw write of message %d failed on a healthy transport: %v", i, werr)
+						return
+					}
+					continue
 				}
 				if err := st.Send(v); err != nil {
 					x.Reportf("C07.send-error", "send", "Send of message %d failed on a healthy transport: %v", i, err)
@@ -145,8 +153,8 @@ func execStream(x *X, scAny any) {
 			err := st.Recv(&v)
 			recs = append(recs, recvRec{err: err, val: v, bytesRead: b.BytesRead})
 			s.Eventf("recv %d err=%v read=%d", i, err != nil, b.BytesRead)
-			if err != nil {
-				break
+			if err != nil && !(ttlv.IsErrEncoding(err) && i < len(frames) && undecodable(frames[i])) {
+				break // (after a completely read message that merely does not decode, the stream is still in step)
 			}
 		}
 		rxDone = true
@@ -193,6 +201,19 @@ func execStream(x *X, scAny any) {
 				x.Reportf("C07.oversize-buffered", "frame", "message %d (%d bytes, max=%d) rejected only after %d of its bytes were consumed", i, len(frames[i]), sc.Max, r.bytesRead-start)
 			}
 			return
+		}
+		if undecodable(frames[i]) {
+			// correctly framed, not decodable: an error for this message, exactly its bytes consumed, the stream goes on
+			if r.err == nil {
+				x.Reportf("C07.wrong-message", "undecodable-accepted", "message %d does not decode on its own, Recv returned it", i)
+				return
+			}
+			if r.bytesRead != ends[i] {
+				x.Reportf("C07.under-read", "undecodable", "after the undecodable message %d the receiver has consumed %d bytes, the message ends at %d", i, r.bytesRead, ends[i])
+				return
+			}
+			start = ends[i]
+			continue
 		}
 		if r.err != nil {
 			sig := "complete-message"
@@ -248,6 +269,21 @@ func execStream(x *X, scAny any) {
 	}
 }
 
+// undecodable: a correctly framed item that the codec itself refuses outside any stream.
+func undecodable(frame []byte) bool {
+	var v ttlv.Value
+	return ttlv.UnmarshalTTLV(bytes.Clone(frame), &v) != nil
+}
+
+// spoil returns a copy of a frame whose first nested item carries an invalid type byte (framing untouched).
+func spoil(frame []byte) []byte {
+	f := bytes.Clone(frame)
+	if len(f) >= 16 && f[3] == 0x01 {
+		f[8+3] = 0x0F
+	}
+	return f
+}
+
 // ---- floor: every truncation offset of small streams under the two extreme segmentations
 
 var streamFloorOnce sync.Map
@@ -296,7 +332,8 @@ func streamFloorList(tier string) []*StreamSc {
 		ttlv.MarshalTTLV(ttlv.Value{Tag: 0x42007A, Value: []byte{}}),
 	}
 	plain := ttlv.MarshalTTLV(ttlv.Value{Tag: 0x420078, Value: ttlv.Struct{ttlv.Value{Tag: 0x420069, Value: int32(7)}}})
-	for _, e := range empties {
+	bad := spoil(ttlv.MarshalTTLV(ttlv.Value{Tag: 0x420078, Value: ttlv.Struct{ttlv.Value{Tag: 0x420069, Value: int32(9)}, ttlv.Value{Tag: 0x42006A, Value: "x"}}}))
+	for _, e := range append(empties, bad) {
 		for _, layout := range [][][]byte{{e}, {e, plain}, {plain, e}, {plain, e, plain}, {e, e}} {
 			var frames []string
 			total := 0
